@@ -78,9 +78,9 @@ func sqlExtraPhases(eval func(w *fw.W, s, aux string), heavy bool) []fw.Phase {
 			Run: func(w *fw.W) { list(w, lenFamilySQL()) }, Eval: eval},
 		{Name: "five-token-patterns", Space: "the four 5-token special patterns with every slot filled by each token that is or becomes the required class (IN, backslash, USER, empty back-tick ...) x continuations of <=2 tokens", Share: 1,
 			Run: func(w *fw.W) { list(w, special5Late()) }, Eval: eval},
-		{Name: "trie-rewritten-words", Space: "{1 ) ( not in like = + foo select}^<=5 (quick) / <=7 (thorough): the tokens whose class later rules rewrite, in every order", Share: 2,
+		{Name: "trie-rewritten-words", Space: "{1 ) ( not in like = + foo select}^<=6 (quick) / <=7 (thorough): the tokens whose class later rules rewrite, in every order", Share: 2,
 			Run: func(w *fw.W) {
-				w.Trie([]string{"1 ", ") ", "( ", "not ", "in ", "like ", "= ", "+ ", "foo ", "select "}, 4, w.Pick(5, 7))
+				w.Trie([]string{"1 ", ") ", "( ", "not ", "in ", "like ", "= ", "+ ", "foo ", "select "}, 4, w.Pick(6, 7))
 			}, Eval: eval},
 		{Name: "byte-sweep", Space: "every byte value 0..255 at each syntactic position of 28 canonical statements", Share: 1,
 			Run: func(w *fw.W) { list(w, alpha.ByteSweepSQL()) }, Eval: eval},
